@@ -24,12 +24,13 @@ PROGRAMS = {
     'printing_loop': "while True:\n    print('a')\n",
     'swallowing_loop': "while True:\n    try:\n        while True:\n            pass\n    except BaseException:\n        pass\n",
     'blocked_on_lock': "import threading\nl = threading.Lock()\nl.acquire()\nl.acquire()\n",
-    'recursive_calls': "def f(n):\n    return f(n + 1) if n < 50 else f(0)\nwhile True:\n    f(0)\n",
+    'recursive_calls': "def f(n):\n    return 0 if n == 0 else 1 + f(n - 1)\nwhile True:\n    f(50)\n",
 }
 # programs that can never see the injected SystemExit: the worker thread stays alive for ever
 NEVER_DIES = {'swallowing_loop', 'blocked_on_lock'}
 SCHEDULES = ['natural', 'W<G', 'G<W<N', 'G<N<W', 'G<N|W']
 LIMIT = 0.4
+_SLEEP = time.sleep        # the real one: the sandbox patches time.sleep while student code runs
 SLACK = 1.0
 
 
@@ -126,7 +127,7 @@ def one(program, schedule):
         # ---- the next execution in the same sandbox
         sb.threaded = False
         release = d.release_worker
-        sb.data['__release'] = (lambda: (release.set(), time.sleep(0.15))) if schedule == 'G<N|W' else (lambda: None)
+        sb.data['__release'] = (lambda: (release.set(), _SLEEP(0.2))) if schedule == 'G<N|W' else (lambda: None)
         out_before = list(sb.output)
         sb.run("print('second-1')\n__release()\nprint('second-2')\nmarker = 41 + 1\n", filename='instructor_next.py')
         if schedule == 'G<N<W':
@@ -138,7 +139,7 @@ def one(program, schedule):
         time.sleep(0.05)
         new_out = sb.output[len(out_before):]
         if new_out != ['second-1', 'second-2']:
-            bad.append(('next_output_altered', 'output of the next execution is %r (before it: %r)' % (new_out, out_before[-3:])))
+            bad.append(('next_output_altered', 'output of the next execution is %s (before it: %r)' % (repr(new_out)[:120], out_before[-3:])))
         if sb.exception is not None:
             bad.append(('next_exception_altered', 'after a clean next execution sandbox.exception is %r' % (sb.exception,)))
         if sb.data.get('marker') != 42:
@@ -170,18 +171,32 @@ def bounded(arg):
         failures.append({'id': 'hooks_missing', 'canon': 'hooks_missing',
                          'detail': 'pedal.sandbox.timeout has no enabled _VERIF_SYNC hook (PEDAL_EDU_PEDAL_VERIF=1)'})
     repeats = 1 if arg.get('tier') == 'quick' else 4
-    for rep in range(repeats):
-        for program in PROGRAMS:
-            for schedule in SCHEDULES:
-                evaluations += 1
-                distinct.add((program, schedule))
-                try:
-                    bad = one(program, schedule)
-                except BaseException as e:
-                    bad = [('harness_error', repr(e))]
-                for what, detail in bad:
-                    failures.append({'id': what, 'canon': '%s under %s in %s' % (what, schedule, program),
-                                     'detail': '%s | program %s, ordering %s' % (detail, program, schedule)})
+    # one fresh interpreter per (program, ordering): workers that never die (swallowed SystemExit, blocked on a lock)
+    # would otherwise pile up and starve the later cases of the GIL
+    import json
+    import subprocess
+    from concurrent.futures import ThreadPoolExecutor
+    here = os.path.abspath(__file__)
+    env = dict(os.environ, PEDAL_EDU_PEDAL_VERIF='1')
+
+    def case(job):
+        program, schedule = job
+        try:
+            p = subprocess.run([sys.executable, here, program, schedule], capture_output=True, text=True, env=env, timeout=120)
+        except subprocess.TimeoutExpired:
+            return job, [('harness_timeout', 'case did not finish within 120 s')]
+        for line in p.stdout.splitlines():
+            if line.startswith('RESULT'):
+                return job, [tuple(x) for x in json.loads(line[6:])]
+        return job, [('harness_error', (p.stderr or p.stdout)[-400:])]
+    jobs = [(program, schedule) for _ in range(repeats) for program in PROGRAMS for schedule in SCHEDULES]
+    with ThreadPoolExecutor(max_workers=4) as pool:
+        for (program, schedule), bad in pool.map(case, jobs):
+            evaluations += 1
+            distinct.add((program, schedule))
+            for what, detail in bad:
+                failures.append({'id': what, 'canon': '%s under %s in %s' % (what, schedule, program),
+                                 'detail': '%s | program %s, ordering %s' % (detail, program, schedule)})
     return {'name': 'B-timeout-schedules', 'bound': '%d programs (busy loop, printing loop, loop swallowing BaseException, blocked on a '
             'lock, deep recursion) x %d forced orderings of the waiting thread and the abandoned worker at the hook points '
             '(natural, W<G, G<W<N, G<N<W, G<N|W), limit %.1f s, %d repetitions; real threads' % (
@@ -200,3 +215,17 @@ def replay(case):
     for f in r['failures']:
         return {'confirmed': True, 'canon': f['canon'], 'input': f['detail'], 'observed': f['detail']}
     return {'confirmed': False}
+
+
+if __name__ == '__main__':
+    import json
+    os.environ['PEDAL_EDU_PEDAL_VERIF'] = '1'
+    sys.path.insert(0, os.environ.get('PEDAL_REPO', '/repo'))
+    try:
+        out = one(sys.argv[1], sys.argv[2])
+    except BaseException as e:          # noqa
+        out = [('harness_error', repr(e))]
+    real = sys.__stdout__
+    real.write('RESULT' + json.dumps(out) + '\n')
+    real.flush()
+    os._exit(0)                          # immortal worker threads must not keep the process alive
